@@ -7,7 +7,11 @@
    contract, validated by compiling and running generated programs).
    Spec/MacroDoc.v: documents [doc] as written inside json!( ), their token trees [tokens],
    the corresponding JSON text [text], the denoted value [value_of], the domain [dom]:
-     integers within i32 (written `-`? digits; an unsuffixed literal is an i32 here),
+     integers `-`? digits suffix? within the range of their type: i32 when unsuffixed (an
+       unsuffixed literal is an i32 here), the type of the suffix otherwise -- one of i8, i16,
+       i32, i64, u8, u16, u32, u64, the types T with `impl From<T> for Value`; a negative value
+       is `-` followed by the suffixed literal of its magnitude (`-128i8`), so unsigned types
+       have no negative values (`-0u8` does not compile); the text has no suffix,
      floats `-`? s where s is a literal common to Rust and JSON (no leading zero, a fraction
        or an exponent) that the implementation re-spells as itself: fmt_f64 s = Some s
        (a float passes through f64, so only for those is "the same literal text" defined),
@@ -84,12 +88,12 @@ Definition ex_fmt (s : list N) : option (list N) :=
 
 (* json!({ "dup": [-3, -1.5, null, [], {}, [[true,],],], ("dup"): false, K0: "x\n", (K0): 1e21, "e": {"n": -2147483648,}, }) *)
 Definition ex_doc : doc :=
-  DObj [ (KLit, s2l "dup", DArr [DInt (-3); DFloat true (s2l "1.5"); DNull; DArr [] false; DObj [] false;
+  DObj [ (KLit, s2l "dup", DArr [DInt None (-3); DFloat true (s2l "1.5"); DNull; DArr [] false; DObj [] false;
                                  DArr [DArr [DBool true] true] true] true);
          (KParen, s2l "dup", DBool false);
          (KVar (s2l "K0"), s2l "dup", DStr [0x78; 0x0A]);
          (KParenVar (s2l "K0"), s2l "dup", DFloat false (s2l "1e21"));
-         (KLit, s2l "e", DObj [(KLit, s2l "n", DInt (-2147483648))] true) ] true.
+         (KLit, s2l "e", DObj [(KLit, s2l "n", DInt None (-2147483648))] true) ] true.
 
 Example C19_example_expand :
   expand ex_fmt ex_env 64 (tokens ex_doc) = Some (value_of ex_doc).
@@ -100,10 +104,34 @@ Example C19_example_text :
   /\ match parse_str (text ex_doc) with Ok (v, _) => value_eqb v (value_of ex_doc) | _ => false end = true.
 Proof. vm_compute. split; reflexivity. Qed.
 
+(* suffixed integer literals at the bounds of their types:
+   json!([18446744073709551615u64, 9223372036854775808u64, -9223372036854775808i64, 255u8, -128i8, {"k": 65535u16, ("k"): -32768i16, "k": 4294967295u32}]) *)
+Definition ex_ints : doc :=
+  DArr [DInt (Some TU64) 18446744073709551615; DInt (Some TU64) 9223372036854775808;
+        DInt (Some TI64) (-9223372036854775808); DInt (Some TU8) 255; DInt (Some TI8) (-128);
+        DObj [(KLit, s2l "k", DInt (Some TU16) 65535); (KParen, s2l "k", DInt (Some TI16) (-32768));
+              (KLit, s2l "k", DInt (Some TU32) 4294967295)] false] true.
+
+Example C19_example_suffixed_integers :
+  expand ex_fmt ex_env 64 (tokens ex_ints) = Some (value_of ex_ints)
+  /\ text ex_ints = s2l "[18446744073709551615,9223372036854775808,-9223372036854775808,255,-128,{""k"":65535,""k"":-32768,""k"":4294967295}]"
+  /\ match parse_str (text ex_ints) with Ok (v, _) => value_eqb v (value_of ex_ints) | _ => false end = true.
+Proof. vm_compute. repeat split; reflexivity. Qed.
+
+(* a literal out of the range of its type, a negated unsigned literal: do not compile *)
+Example C19_out_of_range_integers_are_rejected :
+  expand ex_fmt ex_env 4 [TLit (LInt 128 (Some TI8))] = None
+  /\ expand ex_fmt ex_env 4 [TPunct PMinus; TLit (LInt 129 (Some TI8))] = None
+  /\ expand ex_fmt ex_env 4 [TLit (LInt 256 (Some TU8))] = None
+  /\ expand ex_fmt ex_env 4 [TPunct PMinus; TLit (LInt 0 (Some TU8))] = None
+  /\ expand ex_fmt ex_env 4 [TLit (LInt 2147483648 None)] = None
+  /\ expand ex_fmt ex_env 4 [TPunct PMinus; TLit (LInt 128 (Some TI8))] = Some (VNum (s2l "-128")).
+Proof. vm_compute. repeat split; reflexivity. Qed.
+
 (* ---------- the restrictions of the domain are necessary ---------- *)
 (* the integer literal -0 is the i32 0, the JSON text -0 keeps its sign *)
 Example C19_minus_zero_is_outside :
-  expand ex_fmt ex_env 4 [TPunct PMinus; TLit (LInt 0)] = Some (VNum (s2l "0"))
+  expand ex_fmt ex_env 4 [TPunct PMinus; TLit (LInt 0 None)] = Some (VNum (s2l "0"))
   /\ match parse_str (s2l "-0") with Ok (v, _) => value_eqb v (VNum (s2l "-0")) | _ => false end = true.
 Proof. vm_compute. split; reflexivity. Qed.
 
@@ -119,7 +147,7 @@ Proof. vm_compute. repeat split; reflexivity. Qed.
 (* there is no From<f64>: a parenthesised float is not a json! literal (does not compile) *)
 Example C19_parenthesised_float_is_rejected :
   expand ex_fmt ex_env 4 [TGroup Paren [TLit (LFloat (s2l "1.5"))]] = None
-  /\ expand ex_fmt ex_env 4 [TGroup Paren [TLit (LInt 5)]] = Some (VNum (s2l "5")).
+  /\ expand ex_fmt ex_env 4 [TGroup Paren [TLit (LInt 5 None)]] = Some (VNum (s2l "5")).
 Proof. vm_compute. split; reflexivity. Qed.
 
 Print Assumptions C19_expand.
@@ -133,6 +161,8 @@ Print Assumptions C19_int_spelling.
 Print Assumptions C19_fuel_monotone.
 Print Assumptions C19_example_expand.
 Print Assumptions C19_example_text.
+Print Assumptions C19_example_suffixed_integers.
+Print Assumptions C19_out_of_range_integers_are_rejected.
 Print Assumptions C19_minus_zero_is_outside.
 Print Assumptions C19_float_respelling_is_needed.
 Print Assumptions C19_parenthesised_float_is_rejected.
